@@ -315,6 +315,29 @@ def findName (tbl : List (List Byte)) (w : List Byte) : Option Nat :=
   let i := tbl.findIdx (· == w)
   if i < tbl.length then some i else none
 
+/-- characters of an enumeration word as `ReadEnum` collects them (`isalnum(c) || c == '_'`) -/
+def pw (c : Byte) : Bool := isAlnum c || c == 95
+
+/-- the word part of `ReadEnum` with current character `c1` (already taken from the stream): "look for UPPER" (one
+    character that may be a letter or `_`), the loop over letters, digits and `_`, then the put-back of the character that
+    ended the word unless it is the closing `.`.  Returns (word, last value of `c`, stream). -/
+def enumWord (c1 : Byte) (s3 : IStream) : List Byte × Byte × IStream :=
+  let (str1, c2, s4) : List Byte × Byte × IStream :=
+    if s3.good && (isAlpha c1 || c1 == 95) then let p := getInto c1 s3; ([c1], p.1, p.2) else ([], c1, s3)
+  let (strRev, c3, s5) := runWord pw str1 c2 s4
+  let s6 := if s5.good && c3 != 46 then s5.putback c3 else s5
+  (strRev.reverse, c3, s6)
+
+/-- the table search and the delimiter verdict of `ReadEnum` for a non-empty word -/
+def enumFinish (cfg : LexCfg) (k : EnumKind) (needDelims vd0 : Bool) (str : List Byte) (c3 : Byte) (err : Sev) : Option Nat × Sev :=
+  let found := findName k.table (str.map toUpper)
+  let found := match found with
+    | some i => if cfg.logicalRejectsUnset && k.isUnsetIdx i then none else some i
+    | none => none
+  let err1 := err.warnIf found.isNone
+  let vd : Bool := if c3 == 46 then !vd0 else if needDelims then false else vd0
+  (found, err1.warnIf (!vd))
+
 /-- `ReadEnum( in, err, AssignVal = 1, needDelims )`: index assigned to `v` (none = stays unset) -/
 def readEnum (cfg : LexCfg) (k : EnumKind) (needDelims : Bool) (s : IStream) (err : Sev) : Option Nat × IStream × Sev :=
   let s1 := s.ws
@@ -323,20 +346,9 @@ def readEnum (cfg : LexCfg) (k : EnumKind) (needDelims : Bool) (s : IStream) (er
     let (c0, s2) := getInto 0 s1
     if c0 == 46 || isAlpha c0 then
       let (c1, s3, vd0) : Byte × IStream × Bool := if c0 == 46 then let p := getInto c0 s2; (p.1, p.2, false) else (c0, s2, true)
-      -- "look for UPPER": one char that may also be '_'
-      let (str1, c2, s4) : List Byte × Byte × IStream :=
-        if s3.good && (isAlpha c1 || c1 == 95) then let p := getInto c1 s3; ([c1], p.1, p.2) else ([], c1, s3)
-      let (strRev, c3, s5) := runWord (fun c => isAlnum c || c == 95) str1 c2 s4
-      let s6 := if s5.good && c3 != 46 then s5.putback c3 else s5
-      let str := strRev.reverse
+      let (str, c3, s6) := enumWord c1 s3
       if !str.isEmpty then
-        let found := findName k.table (str.map toUpper)
-        let found := match found with
-          | some i => if cfg.logicalRejectsUnset && k.isUnsetIdx i then none else some i
-          | none => none
-        let err1 := err.warnIf found.isNone
-        let vd : Bool := if c3 == 46 then !vd0 else if needDelims then false else vd0
-        let err2 := err1.warnIf (!vd)
+        let (found, err2) := enumFinish cfg k needDelims vd0 str c3 err
         (found, s6, err2)
       else if c3 == 46 || !vd0 then (none, s6, err.greater .warning)
       else (none, s6, err.greater .incomplete)
